@@ -12,10 +12,11 @@ def run(cmd, timeout=1500):
 def clean():
     run('git checkout -- . && git clean -fdq -e _out')
 notes = open(os.path.join(md, 'notes.md')).read()
-m = re.findall(r"go test[^`\n]*-run[^`\n]*", notes)
-cmds = [c for c in m if '-race' not in c] or m
-cmd = cmds[0].strip()
-pkg = re.findall(r"(\./[\w/]+)/?\s*$", cmd)[0].rstrip('/')
+cands = re.findall(r"go test[^`\n]*?-run[ =]+['\"]?([\w^$|]+)['\"]?[^`\n#]*?(\./[\w/]+)", notes)
+assert cands, 'no demo command with a package path found in notes.md'
+runname, pkg = cands[0]
+pkg = pkg.rstrip('/')
+cmd = "go test -vet=off -count=1 -run '%s' %s/" % (runname, pkg)
 res = {'demo_cmd': cmd, 'pkg': pkg}
 clean()
 demo_dst = os.path.join(wt, pkg, 'zz_demo_verif_test.go')
